@@ -14,7 +14,7 @@ from sim.terms import EX, XSD, T, skey, tkey, u
 
 ID = "C01"
 LEVEL = "exploration"
-TIERS = {"quick": {"runs": 1200}, "thorough": {"runs": 40000, "wall_cap": 3000}}
+TIERS = {"quick": {"runs": 4800, "wall_cap": 600}, "thorough": {"runs": 120000, "wall_cap": 3300}}
 RULE = (
     "each evaluation is one seeded history (<=45 quick / <=80 thorough steps) of add/addN/remove(8 shapes)/set/+=/-=/binary operators on a "
     "Graph over Memory or SimpleMemory, with up to 4 lazy readers (triples/iter/subjects/predicates/objects/slices) opened, stepped, closed "
